@@ -574,7 +574,7 @@ int maps_audit(int op_index) {
 		if ((e.prot & PROT_WRITE) && (e.prot & PROT_EXEC)) {
 			// rwx somewhere in the arena: find the owner
 			Block *b = find_containing(e.lo, nullptr);
-			if (b && (b->owner_class == OWN_CACHE || b->owner_class == OWN_VM_SECURE)) {
+			if (b && (b->owner_class != OWN_VM_PLAIN)) {
 				++bad;
 				g_anomalies.push_back(Anomaly{"WX_KERNEL", std::string("maps rwx owner=") + owner_of(*b), op_index});
 			}
@@ -864,7 +864,7 @@ extern "C" void *__wrap_mmap(void *addr, size_t len, int prot, int flags, int fd
 			b = &(g_blocks[(uintptr_t)p] = std::move(nb));
 			b->prot.assign(b->npages, 0); b->hprot.assign(b->npages, -1);
 			// the same object writable through one live view and executable through another is W+X in all but the address
-			if (b->owner_class == OWN_CACHE || b->owner_class == OWN_VM_SECURE) {
+			if (b->owner_class != OWN_VM_PLAIN) {
 				int all = prot;
 				for (auto &kv : g_blocks) if (kv.second.fileid == fid && kv.second.state == ST_LIVE && &kv.second != b) for (uint8_t pp : kv.second.prot) all |= pp;
 				if ((all & PROT_WRITE) && (all & PROT_EXEC) && !((prot & PROT_WRITE) && (prot & PROT_EXEC))) anomaly("WX", std::string("one object mapped writable and executable at the same time (aliased views) owner=") + owner_of(*b));
@@ -876,7 +876,7 @@ extern "C" void *__wrap_mmap(void *addr, size_t len, int prot, int flags, int fd
 				uintptr_t hi2 = ((uintptr_t)addr + len + PG - 1) & ~(PG - 1);
 				arena_protect((uintptr_t)addr, (hi2 - (uintptr_t)addr) / PG, prot);
 				for (uintptr_t x = (uintptr_t)addr; x < hi2; x += PG) own->prot[(x - own->page_lo) / PG] = (uint8_t)prot;
-				if ((prot & PROT_WRITE) && (prot & PROT_EXEC) && (own->owner_class == OWN_CACHE || own->owner_class == OWN_VM_SECURE)) anomaly("WX", std::string("mmap rwx owner=") + owner_of(*own));
+				if ((prot & PROT_WRITE) && (prot & PROT_EXEC) && (own->owner_class != OWN_VM_PLAIN)) anomaly("WX", std::string("mmap rwx owner=") + owner_of(*own));
 				seam_yield(rt::SITE_MMAP);
 				return addr;
 			}
@@ -901,7 +901,7 @@ extern "C" void *__wrap_mmap(void *addr, size_t len, int prot, int flags, int fd
 		}
 		for (auto &x : b->prot) x = (uint8_t)prot;
 		if ((prot & PROT_WRITE) && (prot & PROT_EXEC)) {
-			if (b->owner_class == OWN_CACHE || b->owner_class == OWN_VM_SECURE) anomaly("WX", std::string("mmap rwx owner=") + owner_of(*b));
+			if (b->owner_class != OWN_VM_PLAIN) anomaly("WX", std::string("mmap rwx owner=") + owner_of(*b));
 			else ++g_stats.rwx_plain;
 		}
 		++g_ledger.maps; g_ledger.map_bytes += b->npages * PG;
@@ -970,7 +970,7 @@ extern "C" int __wrap_mprotect(void *addr, size_t len, int prot) {
 		// injected refusal (what a kernel out of VMAs, an LSM or a seccomp filter does): nothing changes. A request
 		// that asks for W+X is a violation whether or not it would have been granted.
 		++ctx->pfired; ++g_stats.mprotect_refused;
-		if (b && (prot & PROT_WRITE) && (prot & PROT_EXEC) && (b->owner_class == OWN_CACHE || b->owner_class == OWN_VM_SECURE)) anomaly("WX", std::string("mprotect rwx owner=") + owner_of(*b));
+		if (b && (prot & PROT_WRITE) && (prot & PROT_EXEC) && (b->owner_class != OWN_VM_PLAIN)) anomaly("WX", std::string("mprotect rwx owner=") + owner_of(*b));
 		seam_yield(rt::SITE_MPROTECT);
 		errno = ENOMEM; return -1;
 	}
@@ -992,7 +992,7 @@ extern "C" int __wrap_mprotect(void *addr, size_t len, int prot) {
 		pp = (uint8_t)prot;
 	}
 	if ((prot & PROT_WRITE) && (prot & PROT_EXEC)) {
-		if (b->owner_class == OWN_CACHE || b->owner_class == OWN_VM_SECURE) anomaly("WX", std::string("mprotect rwx owner=") + owner_of(*b));
+		if (b->owner_class != OWN_VM_PLAIN) anomaly("WX", std::string("mprotect rwx owner=") + owner_of(*b));
 		else ++g_stats.rwx_plain;
 	} else if (((prot & PROT_EXEC) && was_w && !was_x) || ((prot & PROT_WRITE) && was_x && !was_w)) ++g_stats.rw_rx_transitions;
 	seam_yield(rt::SITE_MPROTECT);
